@@ -218,6 +218,29 @@ func c03Kinds() []c03Kind {
 			ok(db.First(&out), "first")
 			verifrt.Assert(out.V == in.V, "C03.value")
 		}},
+		{"unixtime-pointers", func(db *gorm.DB, s *Store) {
+			// nil stays nil; a pointer to any second count, the epoch (0) included, comes back
+			in := KUnixPtr{}
+			if !verifrt.Bool("v_nil") {
+				v := int64(verifrt.Intn("sec", 0, 4000000000))
+				in.V = &v
+			}
+			if !verifrt.Bool("w_nil") {
+				w := uint32(verifrt.Intn("sec2", 0, 4000000000))
+				in.W = &w
+			}
+			ok(db.Create(&in), "create")
+			var out KUnixPtr
+			ok(db.First(&out), "first")
+			verifrt.Assert((out.V == nil) == (in.V == nil), "C03.value:nil-ness")
+			verifrt.Assert((out.W == nil) == (in.W == nil), "C03.value:nil-ness")
+			if in.V != nil && out.V != nil {
+				verifrt.Assert(*out.V == *in.V, "C03.value")
+			}
+			if in.W != nil && out.W != nil {
+				verifrt.Assert(*out.W == *in.W, "C03.value")
+			}
+		}},
 		{"renamed-column", func(db *gorm.DB, s *Store) {
 			in := KRenamed{V: verifrt.Int("v")}
 			ok(db.Create(&in), "create")
